@@ -211,7 +211,7 @@ func c06Round(t *testing.T, rng *rand.Rand, queries bool) (viol []string, stats 
 
 func TestC06(t *testing.T) {
 	r := evid.Start(t, "C06", "exploration")
-	rounds := r.N(120, 4000)
+	rounds := r.N(600, 6000)
 	for _, mode := range []string{"user", "query"} {
 		r.Cases(mode, rounds, 4, func(ci int, rng *rand.Rand) {
 			viol, stats, sig := c06Round(t, rng, mode == "query")
